@@ -12,7 +12,8 @@ PROP = {
         ],
         "lanes": [
             native("c03"),
-            miri("c03", seeds_q=4, seeds_t=48, scale=1, args={"max-ops": 30}, timeout={"quick": 600, "thorough": 3000}),
+            miri("c03", seeds_q=4, seeds_t=48, scale=1, args={"max-ops": 30, "check-every": 3, "programs": {"quick": 3, "thorough": 12}},
+                 timeout={"quick": 600, "thorough": 3000}),
             san("tsan", "c03", scale=15),
         ],
     }
